@@ -63,7 +63,16 @@ extern "C" void harness(void)
   AutBase::StateDiscontBinaryRelation sim = dense.ComputeSimulation(sp);
 #else
   sp.SetNumStates(NS);
+#ifdef COPYREL
+  // the caller keeps a COPY of the returned relation and then re-uses the variable it came from for the simulation of the
+  // same automaton under another numbering: the copy must keep answering for the numbering it was computed for
+  AutBase::StateDiscontBinaryRelation first = aut.ComputeSimulation(sp);
+  AutBase::StateDiscontBinaryRelation sim(first);
+  { unsigned ren2[NS]; for (unsigned q = 0; q < NS; ++q) ren2[q] = ren[NS - 1 - q];
+    ExplicitTreeAut aut2; A.build(aut2, ren2); first = aut2.ComputeSimulation(sp); }
+#else
   AutBase::StateDiscontBinaryRelation sim = aut.ComputeSimulation(sp);
+#endif
 #endif
 
   // ---- oracle on the canonical numbering, transported along the permutation
